@@ -12,6 +12,12 @@ Theorem facts_po_members : pfacts_ok gen_pfacts = true.
 Proof. exact FactsCheckPO.po_members_lemma. Qed.
 Print Assumptions facts_po_members.
 
+(* closed world: ParameterizedObject and Param declare exactly the members listed in FactsDecls.v (paramList is the
+   only data member, Param has data / name / query; no const member functions) *)
+Theorem facts_po_declared : gen_po_declared = po_declared_expected.
+Proof. exact FactsCheckPO.po_declared_lemma. Qed.
+Print Assumptions facts_po_declared.
+
 (* findParam: find_if with  p->name == name  (whole-string equality); found -> that Param; else if
    addIfNotExist push_back(make_shared<Param>(name)) and return the new last one; else nullptr *)
 Theorem facts_po_findParam : po_agree [MFind].
